@@ -230,6 +230,10 @@ KeyLoop:
 	var ode *gdbi.DataElement
 
 	cde = t.GetCurrent()
+	if cde == nil {
+		// no current element to select fields from
+		return t
+	}
 	ode = out.GetCurrent()
 
 	if len(excludePaths) > 0 {
